@@ -10,14 +10,18 @@ from . import ops as O
 from . import recorder as REC
 
 _ORACLE = None
-_BIND = None
+_FINAL = None
+_WANT_STEPS = False
 
 
 def _init(oracle_path, bind_name):
-    global _ORACLE
+    global _ORACLE, _FINAL, _WANT_STEPS
     H.bind(REC.BN128, bind_name)
     mod, fn = oracle_path.rsplit(".", 1)
-    _ORACLE = getattr(importlib.import_module(mod), fn)
+    m = importlib.import_module(mod)
+    _ORACLE = getattr(m, fn)
+    _FINAL = getattr(m, fn + "_final", None)
+    _WANT_STEPS = bool(getattr(m, "WANT_STEPS", False))
 
 
 def _state_key(mode, n, o):
@@ -34,7 +38,7 @@ def _task(t):
     extra = {}
     for vec in E.input_vectors(prog, vals):
         for mode in modes:
-            o = E.execute(prog, vec, mode, n, want_trace, p)
+            o = E.execute(prog, vec, mode, n, want_trace, p, _WANT_STEPS)
             st["executions"] += 1
             st["transitions"] += o.calls + (1 if o.status == "raise" else 0)
             if o.status == "ok":
@@ -50,6 +54,13 @@ def _task(t):
                                   "case": {"prog": prog, "vals": list(vec), "mode": mode, "n": n,
                                            "p": p}}
                 viols[key]["count"] += 1
+    if _FINAL is not None:
+        for sig, what, case in _FINAL(prog, n, p, extra) or ():
+            key = common.sig_hash(sig)
+            if key not in viols:
+                viols[key] = {"sig": sig, "what": what, "count": 0, "case": case}
+            viols[key]["count"] += 1
+        extra.pop("pending", None)
     return {"name": name, "st": st, "states": states, "n_outcomes": len(outcomes),
             "viols": viols, "extra": extra}
 
